@@ -46,23 +46,23 @@ func init() {
 }
 
 type x01Case struct {
-	ID        int     `json:"id"`
-	Label     string  `json:"label"`
-	Seed      int64   `json:"seed"`
-	Upload    bool    `json:"upload"`
-	Binary    bool    `json:"binary"`
-	Escape    bool    `json:"escape"`
-	Compress  int     `json:"compress"` // 0 auto 1 yes 2 no
-	Protocol  int     `json:"protocol"`
-	Bufsize   int64   `json:"bufsize"`
-	Sizes     []int64 `json:"sizes"`
-	Kind      int     `json:"kind"`
-	Plan      []string `json:"plan"`    // class of the k-th DATA message of the run: f | m | s<k> | r (real clock)
-	Default   string  `json:"default"`  // class once the plan is exhausted
-	RealDelay []int   `json:"realdelay"` // data acknowledgements (0-based, within their file) held back 2.1 s at the wire
-	PauseAt   int     `json:"pauseat"`  // pause the sending client after its DATA message with this index (-1: never)
-	PauseMs   int     `json:"pausems"`
-	MaxChunk  int     `json:"maxchunk"`
+	ID        int      `json:"id"`
+	Label     string   `json:"label"`
+	Seed      int64    `json:"seed"`
+	Upload    bool     `json:"upload"`
+	Binary    bool     `json:"binary"`
+	Escape    bool     `json:"escape"`
+	Compress  int      `json:"compress"` // 0 auto 1 yes 2 no
+	Protocol  int      `json:"protocol"`
+	Bufsize   int64    `json:"bufsize"`
+	Sizes     []int64  `json:"sizes"`
+	Kind      int      `json:"kind"`
+	Plan      []string `json:"plan"`      // class of the k-th DATA message of the run: f | m | s<k> | r (real clock)
+	Default   string   `json:"default"`   // class once the plan is exhausted
+	RealDelay []int    `json:"realdelay"` // data acknowledgements (0-based, within their file) held back 2.1 s at the wire
+	PauseAt   int      `json:"pauseat"`   // pause the sending client after its DATA message with this index (-1: never)
+	PauseMs   int      `json:"pausems"`
+	MaxChunk  int      `json:"maxchunk"`
 }
 
 // ---------------------------------------------------------------- recorder of one run
@@ -565,6 +565,8 @@ func x01Cases(seed int64, thorough bool) []*x01Case {
 	add(x01Case{Label: "p1-down-escape-64K", Upload: false, Binary: true, Escape: true, Compress: 2, Protocol: 1, Bufsize: 64 * K, Sizes: []int64{500 * K}, Kind: 2, Default: "r"})
 	add(x01Case{Label: "p1-1K", Upload: false, Binary: true, Compress: 2, Protocol: 1, Bufsize: 1 * K, Sizes: []int64{20 * K}, Kind: 1, Default: "r"})
 	add(x01Case{Label: "p1-1G", Upload: true, Binary: true, Compress: 2, Protocol: 1, Bufsize: 1024 * M, Sizes: []int64{6 * M}, Kind: 2, Default: "r"})
+	// protocol 1 up to its maximum with blocks that grow by escaping: needs the factor 2 of the receiver's bound
+	add(x01Case{Label: "p1-4M-escaped-above-max", Upload: true, Binary: true, Escape: true, Compress: 2, Protocol: 1, Bufsize: 4 * M, Sizes: []int64{13 * M}, Kind: 2, Default: "r"})
 	// real clock
 	add(x01Case{Label: "real-clock", Upload: true, Binary: true, Compress: 2, Bufsize: 10 * M, Sizes: []int64{3 * M}, Kind: 1, Default: "r"})
 	add(x01Case{Label: "real-clock-down", Upload: false, Binary: false, Compress: 0, Protocol: 3, Bufsize: 64 * K, Sizes: []int64{1 * M}, Kind: 0, Default: "r"})
